@@ -48,3 +48,43 @@ func ValidatorsHash(vals []HashVal, cert uint64) []byte {
 	out = append(out, FieldUint(2, cert)...)
 	return Hash(out)
 }
+
+// HeaderFields are the signed fields of a version-2 block header (LIP-0055), in schema order.
+type HeaderFields struct {
+	Version, Timestamp, Height            uint32
+	PreviousBlockID, GeneratorAddress     []byte
+	TransactionRoot, AssetRoot, EventRoot []byte
+	StateRoot                             []byte
+	MaxHeightPrevoted, MaxHeightGenerated uint32
+	ImpliesMaxPrevotes                    bool
+	ValidatorsHash                        []byte
+	AggHeight                             uint32
+	AggBits, AggSignature                 []byte
+}
+
+// HeaderSigningBytes is the canonical encoding of every header field except the signature (fields 1..14), written
+// independently of the engine's generated codec: what a block signature has to cover.
+func HeaderSigningBytes(h HeaderFields) []byte {
+	b2u := func(b bool) uint64 {
+		if b {
+			return 1
+		}
+		return 0
+	}
+	agg := append(append(FieldUint(1, uint64(h.AggHeight)), FieldBytes(2, h.AggBits)...), FieldBytes(3, h.AggSignature)...)
+	out := FieldUint(1, uint64(h.Version))
+	out = append(out, FieldUint(2, uint64(h.Timestamp))...)
+	out = append(out, FieldUint(3, uint64(h.Height))...)
+	out = append(out, FieldBytes(4, h.PreviousBlockID)...)
+	out = append(out, FieldBytes(5, h.GeneratorAddress)...)
+	out = append(out, FieldBytes(6, h.TransactionRoot)...)
+	out = append(out, FieldBytes(7, h.AssetRoot)...)
+	out = append(out, FieldBytes(8, h.EventRoot)...)
+	out = append(out, FieldBytes(9, h.StateRoot)...)
+	out = append(out, FieldUint(10, uint64(h.MaxHeightPrevoted))...)
+	out = append(out, FieldUint(11, uint64(h.MaxHeightGenerated))...)
+	out = append(out, FieldUint(12, b2u(h.ImpliesMaxPrevotes))...)
+	out = append(out, FieldBytes(13, h.ValidatorsHash)...)
+	out = append(out, FieldBytes(14, agg)...)
+	return out
+}
